@@ -63,6 +63,9 @@ def shards(tier, seed):
         out.append({"kind": "responses", "sub": i, "n": c})
     for i in range(nlim):
         out.append({"kind": "limits", "sub": i, "n": d})
+    ncls = 4 if tier == "quick" else 16
+    for i in range(ncls):
+        out.append({"kind": "classes", "sub": i, "parts": ncls, "stride": 6 if tier == "quick" else 1})
     return out
 
 
@@ -236,7 +239,7 @@ def steer_clear_of_close(S: bytes) -> bool:
 
 def run_shard(spec, rec):
     kind = spec["kind"]
-    seed = spec["seed"] * 1000003 + spec["sub"] * 7919 + {"pairs": 11, "singles": 12, "responses": 13, "limits": 14}[kind]
+    seed = spec["seed"] * 1000003 + spec["sub"] * 7919 + {"pairs": 11, "singles": 12, "responses": 13, "limits": 14, "classes": 15}[kind]
     rng = random.Random(seed)
     if kind in ("pairs", "singles"):
         i = 0
@@ -277,6 +280,23 @@ def run_shard(spec, rec):
             canon, found = explore("response", S, cfg, rec, cls, mode, rng, "main")
             if i % 11 == 0:
                 rec.sample({"kind": "response", "class": cls, "stream": S[:200].decode("latin1"), "cfg": cfg, "canonical": canon[0][:2], "violations": list(found)})
+    elif kind == "classes":
+        # the smuggling mutation classes of the C01 corpus (every class at every position), all single cuts each
+        brng = random.Random(spec["seed"] // 1)  # same bases for every shard of a run
+        L, C, N = G.rich_bases(brng)
+        muts = G.mutation_classes(brng, L, C, N)
+        mine = [m for i, m in enumerate(muts) if i % spec["parts"] == spec["sub"]]
+        if spec["stride"] > 1:
+            mine = mine[spec["seed"] % spec["stride"] :: spec["stride"]]
+        for j, (cls, pos, r) in enumerate(mine):
+            S = r.render() + (b"" if cls.endswith(":nocanary") else G.canary(1))
+            if not steer_clear_of_close(S) or len(S) > 900:
+                continue
+            cfg = {"limits": (8190, 8190, 128), "limit": 2**16}
+            canon, found = explore("request", S, cfg, rec, f"class:{cls}@{pos}", "singles", rng, "main")
+            rec.count("mutation-class-streams")
+            if j % 40 == 0:
+                rec.sample({"kind": "request", "class": cls, "position": pos, "stream": S[:160].decode("latin1"), "canonical": canon[0][:2], "violations": list(found)})
     elif kind == "limits":
         # near-limit lines in every syntactic position, equal limits (main) and unequal limits (trigger stratum)
         for i in range(spec["n"]):
